@@ -39,7 +39,9 @@ PROPS = {
                        'all histories; add() postcondition: chain describes exactly the caller buffers in order, ring slot avail_idx%SIZE, index+1',
     },
     'C02': {
-        'level': 'proof', 'units': ['queue'], 'kani_quick': [], 'kani_thorough': ['k_life_direct'],
+        'level': 'proof', 'units': ['queue'], 'kani_quick': [], 'kani_thorough': ['k_life_direct', 'k_two_direct'],
+        'kani_bounds': {'k_life_direct': 'bounded stand-in: SIZE=4, one chain [1 in, 1 out], index 0xffff',
+                        'k_two_direct': 'bounded stand-in: SIZE=4, two chains, both completion orders, then a chain over the re-ordered free list'},
         'assumptions': Q_ASSUME + ['program order only: fence(SeqCst)+Release store are assumed to order the preceding plain stores for '
                                    'the device; the device fetches available entries in order'],
         'explanation': 'ghost store log: add() appends descriptor stores (into descriptors that were free, never into outstanding chains), '
